@@ -20,12 +20,67 @@ func runC18(r *engine.Run) {
 	r.Rule("ARITH", "every integer + - * / % , every numeric conversion and every call with a panicking precondition (decimal.NewFromFloat) in the hand-written functions of core/currency is discharged by an accepted guard idiom holding on every feasible path (wrap check on an operand, subtrahend<=minuend, post-division check of a product with a non-zero factor, non-zero divisor, sign / NaN / 2^64 rejection before float->uint64, NaN and Inf rejection before NewFromFloat); an instruction with no accepted guard is reported, an unknown operator form is undecided")
 	r.Rule("AGREE-op", "each named helper computes its result with the operator its name promises, on its parameters in order (AddCoin c+b, MinusCoin c-b, MultCoin c*b, DistributeCoin c/d and c%d, the Int64/Float64 variants delegate to them after conversion); ToZCN returns the Float64() of a decimal and does no floating-point arithmetic or integer-to-float conversion itself (scaling by 10^10 happens in decimal arithmetic, as in ParseZCN); ParseZCN converts its argument with decimal.NewFromFloat (the exact shortest decimal) and with no other decimal constructor, so the too-many-decimals rejection stays reachable")
 	r.Rule("ARG-finite", "every helper taking a float64 reports success (nil error) only by returning the result of another float helper applied to a value computed from that argument, or on paths where math.IsNaN(argument) tested false and the argument is bounded from above (IsInf false or a comparison with a constant): no shortcut returns an amount for NaN or +Inf; when the argument is folded into another value before it is handed on (a product), it tested not negative first")
+	r.Rule("PURE-acyclic", "the static call graph of the hand-written functions of core/currency has no cycle: no helper can recurse without bound (none panics, none overflows the stack)")
 	r.NotDec = append(r.NotDec, "decimal-exponent semantics of ParseZCN/ToZCN (library arithmetic)", "format-then-parse round trip")
 	r.Assume = append(r.Assume, "Coin(e.IntPart()) in ParseZCN: range established through the decimal API (Sign()==-1 and GreaterThan(maxDecimal) rejections must hold on every path), not through integer guards")
 	arith(r)
 	agreeOp(r)
 	argFinite(r, "ARG-finite")
 	zcnDecimal(r, "AGREE-op")
+	pureAcyclic(r, "PURE-acyclic")
+}
+
+// pureAcyclic: the currency helpers terminate: the static call graph of the
+// package's hand-written functions has no cycle (helpers that forward to each
+// other for a transformed argument recurse without bound when the
+// transformation has a fixed point, e.g. -MinInt64).
+func pureAcyclic(r *engine.Run, rule string) {
+	fns := map[*ssa.Function]bool{}
+	var order []*ssa.Function
+	for _, f := range funcsOfPkg(r, pkgCur) {
+		if len(f.Blocks) == 0 || isGenFile(r, f.Pos()) {
+			continue
+		}
+		fns[f] = true
+		order = append(order, f)
+	}
+	callees := func(f *ssa.Function) []*ssa.Function {
+		var out []*ssa.Function
+		engine.Instrs(f, func(in ssa.Instruction) {
+			if c, ok := in.(ssa.CallInstruction); ok {
+				if g := c.Common().StaticCallee(); g != nil && fns[g] {
+					out = append(out, g)
+				}
+			}
+		})
+		return out
+	}
+	state := map[*ssa.Function]int{}
+	cycle := ""
+	var visit func(f *ssa.Function, path []string)
+	visit = func(f *ssa.Function, path []string) {
+		if state[f] == 2 || cycle != "" {
+			return
+		}
+		if state[f] == 1 {
+			cycle = strings.Join(append(path, fn(f)), " -> ")
+			return
+		}
+		state[f] = 1
+		for _, g := range callees(f) {
+			visit(g, append(path, fn(f)))
+		}
+		state[f] = 2
+	}
+	for _, f := range order {
+		visit(f, nil)
+	}
+	if len(order) < 8 {
+		r.Anchor(rule, fmt.Errorf("unresolved anchor: only %d hand-written functions in core/currency", len(order)))
+		return
+	}
+	r.Check(cycle == "", rule, "core/currency|call graph", "core/currency/currency.go", fmt.Sprintf("no cycle among the %d hand-written functions", len(order)),
+		"the currency helpers call each other in a cycle ("+cycle+"): a helper that forwards a transformed argument to its counterpart recurses without bound when the transformation maps a value to itself (-MinInt64 == MinInt64), and the process dies with a stack overflow instead of returning an error")
 }
 
 func isGenFile(r *engine.Run, pos token.Pos) bool {
@@ -121,6 +176,26 @@ func arith(r *engine.Run) {
 		o := ord{}
 		engine.Instrs(f, func(in ssa.Instruction) {
 			switch x := in.(type) {
+			case *ssa.UnOp:
+				// -a of a signed integer wraps for the minimum value (-MinInt64 == MinInt64)
+				if x.Op != token.SUB || !isInteger(x.Type()) || isUnsigned(x.Type()) || constVal(x.X) != nil {
+					return
+				}
+				c := o.next(fn(f) + "|neg")
+				good := false
+				if facts, ok := factsAt(f, x); ok {
+					for _, ft := range facts {
+						// a != Min (eq false) or Min < a (lt true) with a constant minimum
+						if ft.Kind == "eq" && !ft.Truth && (sameVal(ft.A, x.X) && constVal(ft.B) != nil || sameVal(ft.B, x.X) && constVal(ft.A) != nil) {
+							good = true
+						}
+						if ft.Kind == "lt" && ft.Truth && sameVal(ft.B, x.X) && constVal(ft.A) != nil && constant.Sign(constVal(ft.A)) < 0 {
+							good = true
+						}
+					}
+				}
+				r.Check(good, rule, c, r.P.Pos(x.Pos()), "negation reached only where the operand tested different from / above the minimum value",
+					"a signed integer is negated without excluding the minimum value: -MinInt64 is MinInt64 again, so a helper that forwards -a to its counterpart never terminates or computes with a still-negative amount")
 			case *ssa.BinOp:
 				if !isInteger(x.Type()) {
 					return
